@@ -11,7 +11,9 @@ impl Channel {
         chan_static_eq(*final(self), *old(self)),
 //@end
 
+    // the validator the node's factory makes for this channel (deterministic per channel)
 //@fn vls-core/src/channel.rs :: impl ChannelBase for Channel :: validator mode=trusted
+    ensures r == chan_validator_of(self.id0),
 //@end
 
 //@fn vls-core/src/channel.rs :: impl Channel :: get_node mode=trusted
@@ -50,8 +52,10 @@ impl EnforcementState {
 //@fn vls-core/src/policy/validator.rs :: impl EnforcementState :: claimable_balances mode=trusted
 //@end
 //@fn vls-core/src/policy/validator.rs :: impl EnforcementState :: incoming_payments_summary mode=trusted
+    ensures r == pay_in_spec(*self, vx_opt_val(new_holder_tx), vx_opt_val(new_counterparty_tx)),
 //@end
 //@fn vls-core/src/policy/validator.rs :: impl EnforcementState :: payments_summary mode=trusted
+    ensures r == pay_out_spec(*self, vx_opt_val(new_holder_tx), vx_opt_val(new_counterparty_tx)),
 //@end
 //@fn vls-core/src/policy/validator.rs :: impl EnforcementState :: set_next_holder_commit_num mode=trusted
     requires old(self).next_holder_commit_num < COMMIT_LIMIT,
